@@ -21,8 +21,9 @@ Section Commands.
     o_written : list (path * gen);
     o_missing : list path; o_mismatch : list path; o_new : list path;
     o_ops : list (N * path);
-    o_info : list info_line }.
-  Definition obs_exit (c : Z) : obs := mkObs (Exit c) [] [] [] [] [] [].
+    o_info : list info_line;
+    o_dh : list (path * fmt * text * text) }.      (* verify -dh: calculated (folder, format, content, structure) *)
+  Definition obs_exit (c : Z) : obs := mkObs (Exit c) [] [] [] [] [] [] [].
 
   Definition diff_paths (a b : list path) : list path := filter (fun p => negb (mem_path p b)) a.
   Definition sorted_paths (l : list path) : list path := sort path_leb l.
@@ -66,7 +67,7 @@ Section Commands.
                        | [] => Exit 0
                        end
                end in
-        (cs_tree C cs, mkObs out (cs_written C cs) (if cs_abort C cs then [] else miss) [] [] (cs_ops C cs) [])
+        (cs_tree C cs, mkObs out (cs_written C cs) (if cs_abort C cs then [] else miss) [] [] (cs_ops C cs) [] [])
     end.
 
   (* ---- create -sf --------------------------------------------------------------------------------------- *)
@@ -94,7 +95,7 @@ Section Commands.
         let cs := commit C cdig ser hs InPlace t sess spec in
         let out := if cs_abort C cs then Abort
                    else if Nat.ltb 0 fails then Exit exit_verification_failed else Exit 0 in
-        (cs_tree C cs, mkObs out (cs_written C cs) [] [] [] (cs_ops C cs) [])
+        (cs_tree C cs, mkObs out (cs_written C cs) [] [] [] (cs_ops C cs) [] [])
     end.
 
   (* ---- verify / diff ------------------------------------------------------------------------------------ *)
@@ -150,7 +151,140 @@ Section Commands.
                             | _, _ => match miss with _ :: _ => exit_completeness | [] => 0%Z end
                             end
                 end in
-            (t, mkObs (Exit code) [] miss (sorted_paths (vs_bad vs)) (sorted_paths (vs_new vs)) [] [])
+            (t, mkObs (Exit code) [] miss (sorted_paths (vs_bad vs)) (sorted_paths (vs_new vs)) [] [] [])
+        end
+    end.
+
+  (* ---- verify -dh ------------------------------------------------------------------------------------- *)
+  Definition dh_formats (hs : list lhist) (ofmt : option fmt) : list fmt :=
+    match ofmt with
+    | Some f => [f]
+    | None =>
+        match dedup_fmts (flat_map (fun h => flat_map (fun g => match g_root g with
+                                                                 | Some es => map e_fmt es
+                                                                 | None => []
+                                                                 end) (lh_gens h)) hs) with
+        | [] => match fmt_of_name dh_default_format with Some f => [f] | None => [] end
+        | fs => fs
+        end
+    end.
+  Definition dh_entry_ok (e : entry) (cs : text * text) : bool :=
+    text_eqb (e_digest e) (fst cs) && match e_struct e with Some s => text_eqb s (snd cs) | None => false end.
+  (* formats of the recorded entries of one folder that do not match what is calculated now *)
+  Definition dh_failures (spec : list text) (fmts : list fmt) (t : node) (p : path) (es : list entry) : list fmt :=
+    flat_map (fun e => if memf (e_fmt e) fmts then
+                         match get C t p with
+                         | Some d => match dirhash Hb matches C spec (e_fmt e) p d with
+                                     | Some cs => if dh_entry_ok e cs then [] else [e_fmt e]
+                                     | None => [e_fmt e]
+                                     end
+                         | None => [e_fmt e]
+                         end
+                       else []) es.
+  Definition ev_dirs (evs : list ev) : list path :=
+    flat_map (fun e => match e with EvDir _ kids => map fst (filter snd kids) | EvFile _ _ => [] end) evs.
+
+  Definition verify_dh (t : node) (ofmt : option fmt) (co ro : bool) (ipats ifile : list text) : node * obs :=
+    match load t with
+    | inr e => (t, obs_exit (load_err_code e))
+    | inl hs =>
+        let rooth := root_hist hs in
+        let spec := set_patterns (latest_patterns (lh_gens rooth)) ipats (pattern_file_lines ifile) in
+        let fmts := sort_fmts (dh_formats hs ofmt) in
+        let evs := events matches C spec [] t in
+        let sub_fail :=
+          if ro then []
+          else flat_map (fun p => let h := route hs rooth p in
+                                  dh_failures spec fmts t p
+                                    (map snd (find_directory_entries (lh_gens h) (strip_prefix (lh_root h) p))))
+                        (ev_dirs evs) in
+        let root_fail :=
+          if co then []
+          else dh_failures spec fmts t []
+                 (flat_map (fun g => match g_root g with Some es => es | None => [] end) (lh_gens rooth)) in
+        let failed := dedup_fmts (sub_fail ++ root_fail) in
+        let code := match failed with
+                    | [] => 0%Z
+                    | _ => if Nat.eqb (length failed) (length fmts) then exit_verification_directories_failed else 0%Z
+                    end in
+        let calc := flat_map (fun p => flat_map (fun f => match get C t p with
+                                                          | Some d => match dirhash Hb matches C spec f p d with
+                                                                      | Some cs => [(p, f, fst cs, snd cs)]
+                                                                      | None => []
+                                                                      end
+                                                          | None => []
+                                                          end) fmts)
+                             (flat_map (fun e => match e with EvDir p _ => [p] | EvFile _ _ => [] end) evs) in
+        (t, mkObs (Exit code) [] [] [] [] [] [] calc)
+    end.
+
+  (* ---- info -------------------------------------------------------------------------------------------- *)
+  (* log_child_histories: generations of the history, then each direct child history, recursively; fuel bounds
+     the nesting depth (the list of loaded histories is finite, so length hs always suffices) *)
+  Fixpoint info_lines (fuel : nat) (hs : list lhist) (h : lhist) : list info_line :=
+    match fuel with
+    | O => []
+    | S k =>
+        map (fun g => IGen (g_no g)) (lh_gens h)
+        ++ flat_map (fun c => match lh_parent c with
+                              | Some par => if path_eqb par (lh_root h) && negb (path_eqb (lh_root c) (lh_root h))
+                                            then IHist (lh_root c) :: info_lines k hs c else []
+                              | None => []
+                              end) hs
+    end.
+  Definition info (t : node) : node * obs :=
+    match load t with
+    | inr e => (t, obs_exit (load_err_code e))
+    | inl hs =>
+        match lh_gens (root_hist hs) with
+        | [] => (t, mkObs (Exit exit_no_history) [] [] [] [] [] [IHist []] [])
+        | _ => (t, mkObs (Exit 0) [] [] [] [] [] (IHist [] :: info_lines (S (length hs)) hs (root_hist hs)) [])
+        end
+    end.
+  (* info -sf FILE with the root given: one line per entry recorded for the path in the root history *)
+  Definition info_sf (t : node) (file : path) : node * obs :=
+    match load t with
+    | inr e => (t, obs_exit (load_err_code e))
+    | inl hs =>
+        match lh_gens (root_hist hs) with
+        | [] => (t, mkObs (Exit exit_no_history) [] [] [] [] [] [IHist []] [])
+        | gens =>
+            (t, mkObs (Exit 0) [] [] [] [] []
+                      (IHist [] :: IFile file ::
+                       flat_map (fun g => match find_media_hash g file with
+                                          | Some r => map (fun e => IEntry (g_no g) (e_fmt e) (e_digest e) (e_action e)) (r_entries r)
+                                          | None => []
+                                          end) gens) [])
+        end
+    end.
+
+  (* ---- flatten ----------------------------------------------------------------------------------------- *)
+  Definition flatten_entry (acc : list record) (r : record) (e : entry) : list record :=
+    match e_action e with
+    | Some Failed => acc
+    | _ =>
+        match find_last (fun x => rec_keys_match x (r_path r)) acc with
+        | None => add_entries acc (r_path r) false (r_size r) [e]
+        | Some found =>
+            if existsb (fun x => fmt_eqb (e_fmt x) (e_fmt e)) (r_entries found) then acc
+            else add_entries acc (r_path found) false (r_size r) [e]
+        end
+    end.
+  Definition flatten_records (gens : list gen) : list record :=
+    fold_left (fun acc g => fold_left (fun acc2 r => if r_dir r then acc2 else fold_left (fun a e => flatten_entry a r e) (r_entries r) acc2)
+                                      (g_records g) acc) gens [].
+  Definition flatten (t : node) (ipats ifile : list text) : node * obs :=
+    match load t with
+    | inr e => (t, obs_exit (load_err_code e))
+    | inl hs =>
+        match lh_gens (root_hist hs) with
+        | [] => (t, obs_exit exit_no_history)
+        | gens =>
+            let spec := set_patterns (latest_patterns gens) ipats (pattern_file_lines ifile) in
+            let recs := map (readback_record) (flatten_records gens) in
+            let doc := mkGen 1 recs None (readback_patterns (set_patterns [] spec [])) [] Flatten in
+            (* the collection's hash list only comes into being with its first entry *)
+            (t, mkObs (Exit 0) (match recs with [] => [] | _ => [([], doc)] end) [] [] [] [] [] [])
         end
     end.
 End Commands.
